@@ -111,7 +111,8 @@ def run(ctx):
             nfun += 1
             for b_ in ast.walk(fn_):
                 if isinstance(b_, ast.BoolOp) and isinstance(b_.op, ast.Or) and isinstance(b_.values[-1], ast.Call) \
-                        and X.call_name_of(b_.values[-1]) in ('IntLiteral', 'Literal', 'FloatLiteral', 'LogicLiteral'):
+                        and X.call_name_of(b_.values[-1]) in ('IntLiteral', 'Literal', 'FloatLiteral', 'LogicLiteral') \
+                        and not any(h[2] is b_ for h in hits):
                     hits.append((mod, fn_, b_))
             for o_, t_ in X.truthy_bound_uses(fn_):
                 if not any(h[2] is t_ for h in hits):
